@@ -385,6 +385,35 @@ theorem tree_spec (nan : Nat) (e : SExpr) (ext : Ctx) (nodes : List NodeIn)
     exact ⟨export_pred _ (span_sampled_is_recording (build nan e)
       ⟨parentCtx ext outs n.parentIdx, n.newRoot, n.genTid, n.genSid, n.script⟩ hgood.1), rfl⟩
 
+/-- **whatever stock span processor feeds the exporter** — simple, batch, batch `WithBlocking()`, batch with a
+small export batch, blocking batch with queue and batch size 1 — after ending the spans and flushing it holds
+exactly the sampled spans of the tree (`Spec.exportOK`): the model has one filter for all configurations
+(`exportedBy`), the driver checks every configuration's exporter against it on every tree line. -/
+theorem tree_export_every_processor (p : Proc) (nan : Nat) (e : SExpr) (ext : Ctx) (nodes : List NodeIn)
+    (hf : ext.flags < 256) (ht : ext.tid.length = 16) (hg : ∀ n ∈ nodes, n.genTid.length = 16)
+    (hwf : WellFormed nodes) :
+    let outs := runTree (build nan e) ext nodes []
+    Spec.exportOK ext nodes (outs.map Spec.obsOf) (exportedBy p outs) = true :=
+  (tree_spec nan e ext nodes hf ht hg hwf).2
+
+/-- in particular a RecordOnly span (recording, sampled flag clear) is never handed to any exporter -/
+theorem record_only_never_exported (p : Proc) (outs : List StartOut) (o : StartOut)
+    (ho : o.ctx.sampled = false) :
+    ∀ x ∈ exportedBy p (outs ++ [o]), x ∈ exportedBy p outs := by
+  intro x hx
+  unfold exportedBy exportedOf at hx ⊢
+  simp only [List.reverse_append, List.reverse_cons, List.reverse_nil, List.nil_append, List.singleton_append,
+    List.filter_cons, ho, Bool.and_false, Bool.false_eq_true, if_false] at hx
+  exact hx
+
+/-- non-vacuity: a RecordOnly span next to a sampled one: only the sampled one is exported, by every processor -/
+example :
+    let outs := runTree .custom Ctx.zero
+      [⟨-1, false, zeros 15 ++ [1], zeros 7 ++ [1], ⟨1, none⟩⟩, ⟨-1, false, zeros 15 ++ [2], zeros 7 ++ [2], ⟨2, none⟩⟩] []
+    outs.map (·.recording) = [true, true] ∧ outs.map (·.ctx.sampled) = [false, true]
+    ∧ ∀ p ∈ Proc.all, (exportedBy p outs).map (·.sid) = [zeros 7 ++ [2]] := by
+  decide
+
 /-- non-vacuity: a well-formed tree of four nodes under a sampled remote parent with default `ParentBased(never)`:
 a root-level child (0), a child of it (1), a child of that child (2), and a new root (3) hanging under node 1.
 The hypotheses hold, the conclusions compute to true, and the exporter gets nodes 2, 1, 0 (not the new root,
